@@ -15,7 +15,9 @@ class Author(Base):
     id = Column(Integer, primary_key=True)
     name = Column(String, nullable=False)
     posts = relationship("Post", back_populates="author")
-    written = relationship("Comment", back_populates="writer",
+    # same accessor name as Post.comments, on purpose (lambda owner `comments/any(...)` is
+    # valid on two root models)
+    comments = relationship("Comment", back_populates="writer",
                            foreign_keys="Comment.writer_id")
     reviewed = relationship("Comment", back_populates="reviewer",
                             foreign_keys="Comment.reviewer_id")
@@ -39,7 +41,7 @@ class Comment(Base):
     writer_id = Column(Integer, ForeignKey("author.id"), nullable=True)
     reviewer_id = Column(Integer, ForeignKey("author.id"), nullable=True)
     post = relationship("Post", back_populates="comments")
-    writer = relationship("Author", back_populates="written", foreign_keys=[writer_id])
+    writer = relationship("Author", back_populates="comments", foreign_keys=[writer_id])
     # a second relationship to the same target: hosts join it through an alias
     reviewer = relationship("Author", back_populates="reviewed", foreign_keys=[reviewer_id])
 
